@@ -170,7 +170,7 @@ Definition chain_of (br : branch) : chain :=
   match br with BB => CB | B2n => C2n | BMain | BSmall => CAct end.
 
 Ltac split_row H :=
-  unfold activity_row in H; cbv zeta in H;
+  unfold activity_row_with in H; cbv zeta in H;
   repeat (match type of H with
   | context [if ?b then _ else _] => destruct b eqn:?
   | context [match lin_ln2_neg ?a ?b with _ => _ end] => destruct (lin_ln2_neg a b) as [[|]|] eqn:?
@@ -178,8 +178,8 @@ Ltac split_row H :=
 
 (* what the tie compares with: the [spec] expression the model emits IS the chain solution of
    Spec/Activation.v for the row's cross sections and half-lives, and [lam] is ln 2 / T *)
-Theorem model_spec_is_chain_solution : forall r amass mass env t br a m lam spec,
-  activity_row r amass mass env t = OAct br a m lam spec ->
+Theorem model_spec_is_chain_solution : forall sb r amass mass env t br a m lam spec,
+  activity_row_with sb r amass mass env t = OAct br a m lam spec ->
   evalR no_env_R spec =
     activity_end (chain_of br) (Q2R mass) (IZR amass) (Q2R (row_flux r env)) (Q2R (fluence env))
                  (Q2R (row_xs r env)) (Q2R (row_xs2 r env)) (Q2R (r_thalf r)) (Q2R (r_thalf_par r)) (Q2R t)
@@ -215,8 +215,8 @@ Proof.
 Qed.
 
 (* on every branch but the small-argument one, the code-shaped expression denotes the chain solution *)
-Theorem model_refines_spec : forall r amass mass env t br a m lam spec,
-  activity_row r amass mass env t = OAct br a m lam spec ->
+Theorem model_refines_spec : forall sb r amass mass env t br a m lam spec,
+  activity_row_with sb r amass mass env t = OAct br a m lam spec ->
   br <> BSmall ->
   (br = BMain -> decay_const (Q2R (r_thalf r)) - rate (Q2R (row_flux r env)) (Q2R (row_xs r env))
                  + rate (Q2R (fluence env)) (Q2R (row_xs2 r env)) <> 0) ->
@@ -242,8 +242,8 @@ Proof.
 Qed.
 
 (* hence: the model's activity at the end of irradiation is the decay rate of the chain solution *)
-Corollary model_activity_is_chain_solution : forall r amass mass env t br a m lam spec,
-  activity_row r amass mass env t = OAct br a m lam spec ->
+Corollary model_activity_is_chain_solution : forall sb r amass mass env t br a m lam spec,
+  activity_row_with sb r amass mass env t = OAct br a m lam spec ->
   br <> BSmall ->
   (br = BMain -> decay_const (Q2R (r_thalf r)) - rate (Q2R (row_flux r env)) (Q2R (row_xs r env))
                  + rate (Q2R (fluence env)) (Q2R (row_xs2 r env)) <> 0) ->
@@ -252,8 +252,30 @@ Corollary model_activity_is_chain_solution : forall r amass mass env t br a m la
                  (Q2R (row_xs r env)) (Q2R (row_xs2 r env)) (Q2R (r_thalf r)) (Q2R (r_thalf_par r)) (Q2R t).
 Proof.
   intros until spec. intros H Hns Hd.
-  rewrite (model_refines_spec _ _ _ _ _ _ _ _ _ _ H Hns Hd).
-  apply (model_spec_is_chain_solution _ _ _ _ _ _ _ _ _ _ H).
+  rewrite (model_refines_spec _ _ _ _ _ _ _ _ _ _ _ H Hns Hd).
+  apply (model_spec_is_chain_solution _ _ _ _ _ _ _ _ _ _ _ H).
+Qed.
+
+(* without the small-argument test the model never takes that branch, so the refinement is total *)
+Lemma no_small_branch : forall r amass mass env t br a m lam spec,
+  activity_row_with false r amass mass env t = OAct br a m lam spec -> br <> BSmall.
+Proof.
+  intros until spec. intro H. unfold activity_row_with in H. cbv zeta in H. rewrite andb_false_l in H.
+  repeat (match type of H with
+  | context [if ?b then _ else _] => destruct b eqn:?
+  end; try discriminate H); injection H as <- <- <- <- <-; discriminate.
+Qed.
+
+Theorem model_refines_spec_repaired : forall r amass mass env t br a m lam spec,
+  activity_row_with false r amass mass env t = OAct br a m lam spec ->
+  (br = BMain -> decay_const (Q2R (r_thalf r)) - rate (Q2R (row_flux r env)) (Q2R (row_xs r env))
+                 + rate (Q2R (fluence env)) (Q2R (row_xs2 r env)) <> 0) ->
+  evalR no_env_R a =
+    activity_end (chain_of br) (Q2R mass) (IZR amass) (Q2R (row_flux r env)) (Q2R (fluence env))
+                 (Q2R (row_xs r env)) (Q2R (row_xs2 r env)) (Q2R (r_thalf r)) (Q2R (r_thalf_par r)) (Q2R t).
+Proof.
+  intros until spec. intros H Hd.
+  apply (model_activity_is_chain_solution false _ _ _ _ _ _ _ _ _ _ H (no_small_branch _ _ _ _ _ _ _ _ _ _ H) Hd).
 Qed.
 
 (* rest decay of the model: exp(-lam t) with lam = ln 2 / T is 2^(-t/T) *)
@@ -273,19 +295,19 @@ Proof.
 Qed.
 
 (* ------------------------------------------------------------------ omission rules *)
-Theorem fast_omitted : forall r amass mass env t,
-  r_fast r = true -> Qeq (fast_ratio env) 0 -> activity_row r amass mass env t = OSkip.
+Theorem fast_omitted : forall sb r amass mass env t,
+  r_fast r = true -> Qeq (fast_ratio env) 0 -> activity_row_with sb r amass mass env t = OSkip.
 Proof.
-  intros r amass mass env t Hf H0. unfold activity_row. rewrite Hf.
+  intros sb r amass mass env t Hf H0. unfold activity_row_with. rewrite Hf.
   apply Qeq_bool_iff in H0. rewrite H0. reflexivity.
 Qed.
 
-Theorem fast_included : forall r amass mass env t,
-  ~ Qeq (fast_ratio env) 0 -> activity_row r amass mass env t <> OSkip.
+Theorem fast_included : forall sb r amass mass env t,
+  ~ Qeq (fast_ratio env) 0 -> activity_row_with sb r amass mass env t <> OSkip.
 Proof.
-  intros r amass mass env t H0 H. assert (E : Qeq_bool (fast_ratio env) 0 = false).
+  intros sb r amass mass env t H0 H. assert (E : Qeq_bool (fast_ratio env) 0 = false).
   { destruct (Qeq_bool (fast_ratio env) 0) eqn:E; [|reflexivity]. apply Qeq_bool_iff in E. contradiction. }
-  unfold activity_row in H. rewrite E, andb_false_r in H. cbv zeta in H.
+  unfold activity_row_with in H. rewrite E, andb_false_r in H. cbv zeta in H.
   repeat (match type of H with
   | context [if ?b then _ else _] => destruct b eqn:?
   | context [match lin_ln2_neg ?a ?b with _ => _ end] => destruct (lin_ln2_neg a b) as [[|]|] eqn:?
